@@ -436,7 +436,10 @@ func famConc(tr *Trace, scratch string, seed int64, tier string) M {
 		nshapes, iters = 20, 40
 	}
 	shapes := isoShapes(scratch, rng, nshapes)
-	sets := [][]string{{"deb", "rpm"}, {"apk", "archlinux"}, {"deb", "ipk"}, {"rpm", "apk", "ipk"}, allFormats, {"deb", "deb"}, {"rpm", "rpm", "archlinux"}}
+	// the first set of every shape has every format twice: whatever a packager initialises or records on first use is
+	// first used by several goroutines at once
+	sets := [][]string{append(append([]string{}, allFormats...), allFormats...), {"deb", "deb"}, {"deb", "ipk"}, {"deb", "rpm"}, {"apk", "archlinux"},
+		{"rpm", "apk", "ipk"}, {"rpm", "rpm", "archlinux"}}
 	id := 0
 	runs := 0
 	// Nothing is packaged sequentially before the first concurrent round: state that the code initialises lazily on first
